@@ -4,6 +4,7 @@
 //! (C37).
 
 use std::cell::{Cell, OnceCell};
+use std::sync::{Mutex, OnceLock};
 use std::collections::{BTreeMap, BTreeSet};
 
 use hydro_lang::prelude::*;
@@ -54,21 +55,21 @@ impl PCase {
 /// Lazily compiled programs (one trybuild compile each, cached on disk by content hash).
 #[derive(Default)]
 pub struct Progs {
-    batch_ordered: OnceCell<Result<(CompiledSim, (OrdSend<i32>, OrdRecv<Vec<i32>>)), SimPanic>>,
-    batch_unordered: OnceCell<Result<(CompiledSim, (NoSend<i32>, OrdRecv<Vec<i32>>)), SimPanic>>,
+    batch_ordered: OnceLock<Result<(CompiledSim, (OrdSend<i32>, OrdRecv<Vec<i32>>)), SimPanic>>,
+    batch_unordered: OnceLock<Result<(CompiledSim, (NoSend<i32>, OrdRecv<Vec<i32>>)), SimPanic>>,
     keyed_ordered:
-        OnceCell<Result<(CompiledSim, (OrdSend<(u8, i32)>, OrdRecv<Vec<(u8, Vec<i32>)>>)), SimPanic>>,
+        OnceLock<Result<(CompiledSim, (OrdSend<(u8, i32)>, OrdRecv<Vec<(u8, Vec<i32>)>>)), SimPanic>>,
     keyed_unordered:
-        OnceCell<Result<(CompiledSim, (NoSend<(u8, i32)>, OrdRecv<Vec<(u8, Vec<i32>)>>)), SimPanic>>,
-    snapshot_count: OnceCell<Result<(CompiledSim, (OrdSend<i32>, OrdRecv<usize>)), SimPanic>>,
+        OnceLock<Result<(CompiledSim, (NoSend<(u8, i32)>, OrdRecv<Vec<(u8, Vec<i32>)>>)), SimPanic>>,
+    snapshot_count: OnceLock<Result<(CompiledSim, (OrdSend<i32>, OrdRecv<usize>)), SimPanic>>,
     two_batches:
-        OnceCell<Result<(CompiledSim, (OrdSend<i32>, OrdSend<i32>, OrdRecv<(Vec<i32>, Vec<i32>)>)), SimPanic>>,
-    sliced_batch_count: OnceCell<Result<(CompiledSim, (OrdSend<i32>, OrdRecv<(Vec<i32>, usize)>)), SimPanic>>,
-    fold_snapshot: OnceCell<Result<(CompiledSim, (NoSend<i32>, OrdRecv<i32>)), SimPanic>>,
-    tick_order: OnceCell<Result<(CompiledSim, (OrdSend<i32>, OrdSend<i32>, OrdRecv<(i32, usize)>)), SimPanic>>,
-    top_order: OnceCell<Result<(CompiledSim, (NoSend<i32>, OrdRecv<i32>)), SimPanic>>,
-    intick_order: OnceCell<Result<(CompiledSim, (NoSend<i32>, OrdRecv<Vec<i32>>)), SimPanic>>,
-    pub compile_secs: Cell<f64>,
+        OnceLock<Result<(CompiledSim, (OrdSend<i32>, OrdSend<i32>, OrdRecv<(Vec<i32>, Vec<i32>)>)), SimPanic>>,
+    sliced_batch_count: OnceLock<Result<(CompiledSim, (OrdSend<i32>, OrdRecv<(Vec<i32>, usize)>)), SimPanic>>,
+    fold_snapshot: OnceLock<Result<(CompiledSim, (NoSend<i32>, OrdRecv<i32>)), SimPanic>>,
+    tick_order: OnceLock<Result<(CompiledSim, (OrdSend<i32>, OrdSend<i32>, OrdRecv<(i32, usize)>)), SimPanic>>,
+    top_order: OnceLock<Result<(CompiledSim, (NoSend<i32>, OrdRecv<i32>)), SimPanic>>,
+    intick_order: OnceLock<Result<(CompiledSim, (NoSend<i32>, OrdRecv<Vec<i32>>)), SimPanic>>,
+    pub compile_secs: Mutex<f64>,
 }
 
 macro_rules! get_prog {
@@ -79,9 +80,7 @@ macro_rules! get_prog {
             let node = flow.process::<()>();
             let ports = $builder(&node);
             let c = compile(flow.sim());
-            $self
-                .compile_secs
-                .set($self.compile_secs.get() + t0.elapsed().as_secs_f64());
+            *$self.compile_secs.lock().unwrap() += t0.elapsed().as_secs_f64();
             c.map(|c| (c, ports))
         });
         match r {
@@ -110,6 +109,31 @@ fn vals(n: usize) -> Vec<i32> {
 }
 
 impl Progs {
+    /// Compile every program the cases need, concurrently (independent trybuild jobs).
+    pub fn precompile(&self, cases: &[PCase]) {
+        let mut seen = BTreeSet::new();
+        let firsts: Vec<&PCase> = cases.iter().filter(|c| seen.insert(c.prog())).collect();
+        std::thread::scope(|s| {
+            for c in firsts {
+                s.spawn(move || {
+                    let _ = match c {
+                        PCase::BatchOrdered { .. } => get_prog!(self, batch_ordered, batch_ordered).map(|_| ()),
+                        PCase::BatchUnordered { .. } => get_prog!(self, batch_unordered, batch_unordered).map(|_| ()),
+                        PCase::KeyedOrdered { .. } => get_prog!(self, keyed_ordered, batch_keyed_ordered).map(|_| ()),
+                        PCase::KeyedUnordered { .. } => get_prog!(self, keyed_unordered, batch_keyed_unordered).map(|_| ()),
+                        PCase::SnapshotCount { .. } => get_prog!(self, snapshot_count, snapshot_count).map(|_| ()),
+                        PCase::TwoBatches { .. } => get_prog!(self, two_batches, two_batches).map(|_| ()),
+                        PCase::SlicedBatchCount { .. } => get_prog!(self, sliced_batch_count, sliced_batch_count).map(|_| ()),
+                        PCase::FoldSnapshot { .. } => get_prog!(self, fold_snapshot, fold_unordered_snapshot).map(|_| ()),
+                        PCase::TickOrder { .. } => get_prog!(self, tick_order, tick_order_witness).map(|_| ()),
+                        PCase::TopOrder { .. } => get_prog!(self, top_order, toplevel_order).map(|_| ()),
+                        PCase::IntickOrder { .. } => get_prog!(self, intick_order, intick_order).map(|_| ()),
+                    };
+                });
+            }
+        });
+    }
+
     /// Run the case under `CompiledSim::exhaustive`, recording the outputs of every execution.
     pub fn explore(&self, case: &PCase) -> Result<Result<Explored, SimPanic>, Fail> {
         let mut outs: Vec<Out> = vec![];
@@ -733,6 +757,7 @@ pub fn cases(tier: Tier, for_c37: bool) -> Vec<PCase> {
 
 pub fn c36_programs(ctx: &mut Ctx, progs: &Progs) {
     let execs = Cell::new(0u64);
+    progs.precompile(&cases(ctx.tier(), false));
     ctx.check_all("prog-exhaustive", cases(ctx.tier(), false), |case: &PCase, obs: &mut Obs| {
         obs.class(format!("prog:{}", case.prog()));
         let ex = match progs.explore(case)? {
@@ -761,6 +786,7 @@ pub fn c36_programs(ctx: &mut Ctx, progs: &Progs) {
 
 pub fn c37_programs(ctx: &mut Ctx, progs: &Progs) {
     let execs = Cell::new(0u64);
+    progs.precompile(&cases(ctx.tier(), true));
     ctx.check_all("prog-outcomes", cases(ctx.tier(), true), |case: &PCase, obs: &mut Obs| {
         obs.class(format!("prog:{}", case.prog()));
         let ex = match progs.explore(case)? {
